@@ -153,5 +153,6 @@ pub fn property() -> Property {
         assumptions: vec!["native-stack exhaustion by deeply nested input is decided by the child-process battery of C01 (shared), not in-process"],
         families,
         prelude: None,
+        epilogue: None,
     }
 }
